@@ -21,7 +21,8 @@ run_one() {
   IFS='|' read -r name P f <<<"$1"
   wt=$OUT/wt-$name
   git -C /repo worktree add -q --detach "$wt" HEAD 2>/dev/null || { echo "TROUBLE $name worktree"; return; }
-  if git -C "$wt" apply "$(readlink -f "$f")" 2>/dev/null; then
+  # strict first; a patch whose context moved (a later fix nearby) is merged three-way; a real conflict is TROUBLE
+  if git -C "$wt" apply "$(readlink -f "$f")" 2>/dev/null || { git -C "$wt" apply --3way "$(readlink -f "$f")" >/dev/null 2>&1 && ! git -C "$wt" diff --name-only --diff-filter=U | grep -q . ; }; then
     mkdir -p "$OUT/r-$name"
     VERIF_REPO=$wt VERIF_REPLAY_DIR=$OUT/r-$name VERIF_EVIDENCE_DIR=$OUT/r-$name ./bin/check $P --workers 3 > "$OUT/$name.log" 2>&1
     rc=$?
